@@ -2,6 +2,7 @@
 //! exit 0 = held (or only known findings), 1 = violation, 2 = cannot decide.
 use gvlib::ctx::*;
 use gvlib::hist;
+use gvlib::searchrun;
 use serde_json::Value;
 
 fn usage() -> ! {
@@ -14,6 +15,13 @@ fn run_property(prop: &str, ctx: &mut Ctx) {
         "C01" => hist::run(hist::Which::C01, ctx),
         "C02" => hist::run(hist::Which::C02, ctx),
         "C03" => hist::run(hist::Which::C03, ctx),
+        "C04" => searchrun::run("C04", ctx),
+        "C05" => searchrun::run("C05", ctx),
+        "C06" => searchrun::run("C06", ctx),
+        "C07" => searchrun::run("C07", ctx),
+        "C08" => searchrun::run("C08", ctx),
+        "C09" => searchrun::run("C09", ctx),
+        "C10" => searchrun::run("C10", ctx),
         _ => {
             eprintln!("unknown property {}", prop);
             std::process::exit(2)
@@ -27,6 +35,7 @@ fn replay_case(prop: &str, v: &Value, st: &mut Stats) -> Result<(), String> {
         "C01" => hist::replay(hist::Which::C01, case, st),
         "C02" => hist::replay(hist::Which::C02, case, st),
         "C03" => hist::replay(hist::Which::C03, case, st),
+        "C04" | "C05" | "C06" | "C07" | "C08" | "C09" | "C10" => searchrun::replay(prop, case, st),
         _ => Err(format!("no replay for {}", prop)),
     }
 }
